@@ -201,6 +201,11 @@ def run_check(prop, tier, seed, workers=None, budget=None, keep=False):
         got = sum(v for k, v in counters.items() if k.startswith(key))
         if got < n:
             reasons.append("contract %s evaluated %d < %d times" % (key, got, n))
+    for key in getattr(mod, "HARNESS_FAULT_DISCARDS", ()):
+        # discards that only a harness slip can produce (a scripted step that found nothing to act on): the run
+        # did not exercise what it claims to
+        if discarded.get(key):
+            reasons.append("harness discard %s occurred %d times" % (key, discarded[key]))
     for a, n in anchors.items():
         if n == 0:
             reasons.append("anchor %s never entered" % a)
